@@ -59,8 +59,10 @@ def run(ctx):
     # E5: free-running rounds (real threads, inert hooks): the windows INSIDE the steps of Mpmc.tla ------------
     obs = os.path.join(ctx.work, 'stress.ndjson')
     rounds = 300000 if thorough else 20000
+    # 20000 rounds take < 1 s on an idle machine; --maxms only bounds the engine when the machine is oversubscribed
+    # (the rounds need their threads co-scheduled); the number of rounds that were run is reported in the coverage
     tot, _ = ctx.driver(exe, ['--out', obs, '--stress', rounds, '--seed', ctx.seed,
-                              '--maxms', 240000 if thorough else 6000], INV_WHAT,
+                              '--maxms', 300000 if thorough else 20000], INV_WHAT,
                         label='free-running producers x consumers', allow_incomplete=True,
                         timeout=1500 if thorough else 300)
     ctx.validate(SPEC, 'MpmcObs.tla', 'MpmcObs.cfg', obs, INV_WHAT, executions=tot.get('executions', 0),
